@@ -424,7 +424,7 @@ def stream_mix(ka, kb):
     if ka == "line_segment" or kb == "line_segment" or "triangle" in (ka, kb):
         mix += ["small"]
     if {ka, kb} & MULTI_SIZE:
-        mix += ["aniso"] * (4 if "ellipsoid" in (ka, kb) else 2)
+        mix += ["aniso"] * (8 if "ellipsoid" in (ka, kb) else 2)
     return mix
 
 
